@@ -9,10 +9,11 @@ import random as _random
 from .common import *
 
 I64_MIN, I64_MAX = -2**63, 2**63 - 1
-SEARCH = 20000           # search limit of the implementation runs (finite, so nothing can hang)
-UD_CALLS = 2_000_000
+SEARCH = 6000            # search limit of the implementation runs (finite, so nothing can hang; > ORACLE_BUDGET)
+UD_CALLS = 600_000       # > the calls of two lazy consumptions within the oracle's budget
 ORACLE_BUDGET = 3000     # pulls of any one source the oracle is willing to do
 FUEL = 400000            # steps of the model
+WATCHDOG = 60.0          # seconds before a single request counts as a hang (generous: the machine may be loaded)
 
 
 class Diverge(Exception):
@@ -611,7 +612,7 @@ def run_cases(cases):
         reqs.append({"op": "run", "src": src, "get": ["a", "b"], "limits": {"search": SEARCH, "ud_calls": UD_CALLS}})
         c = cons if arg is None else f"{cons}:{arg}"
         mlines.append(f"gen {c} {SEARCH} {FUEL} " + " ".join(p.toks))
-    impl = run_harness(reqs, per_req_timeout=20.0)
+    impl = run_harness(reqs, per_req_timeout=WATCHDOG)
     model = run_model(mlines)
     out = []
     for (p, cons, arg, call), r, m in zip(cases, impl, model):
